@@ -529,7 +529,8 @@ func (label BuildLabel) isExperimental(state *BuildState) bool {
 // Matches returns whether the build label matches the other based on wildcard rules
 func (label BuildLabel) Matches(other BuildLabel) bool {
 	if label.Name == "..." {
-		return label.PackageName == "." || strings.HasPrefix(other.PackageName, label.PackageName)
+		return label.PackageName == "." || label.PackageName == "" || other.PackageName == label.PackageName ||
+			strings.HasPrefix(other.PackageName, label.PackageName+"/")
 	}
 	if label.Name == "all" {
 		return label.PackageName == other.PackageName
